@@ -347,6 +347,49 @@ def near_twin(ch, base):
         raise Reject('illformed: %s' % e)
 
 
+def wide_field_cases(tier='quick'):
+    """[(name, Case)]: scale-0 elements widened by 201YYY to 53 ... 134 bits (FM-94 allows YYY up to 255, i.e. +127 bits),
+    holding values that a binary64 cannot carry: 2^53 + 1, 2^60 + 1, the largest representable raw value 2^n - 2, the
+    all-ones pattern (missing), and small values as a control.  Uncompressed, and compressed with small differences
+    around a large minimum (difference widths stay below 63 bits).  Deterministic."""
+    out = []
+
+    def meta(**kw):
+        m = dict(frame.default_meta(kw.pop('edition', 4)))
+        m.update({'master_table_version': 33, 'n_subsets': 1, 'is_compressed': False})
+        m.update(kw)
+        return m
+    B = gpool.pool_for(33).tables.B
+    # 001001 (7 bits), 004001 (12 bits), 007001 (15 bits, reference -400): numeric, scale 0 (201YYY leaves code and flag tables alone)
+    elems = [1001, 4001, 7001]
+    targets = [53, 54, 60, 63, 64] if tier == 'quick' else [53, 54, 55, 57, 60, 62, 63, 64, 65, 72, 100, 128, 134]
+    for e in elems:
+        w0 = B[e].nbits
+        for w in targets:
+            dw = w - w0
+            if not (1 <= dw <= 127):
+                continue
+            top = (1 << w) - 2
+            vals = [v for v in ((1 << 53) + 1, (1 << 60) + 1, (1 << 63) + (1 << 9) + 5, top, top - 1, (1 << (w - 1)) + 1, 5)
+                    if 0 <= v <= top]
+            ids = [201000 + 128 + dw, e, 201000, e]
+            for k, v in enumerate(vals):
+                out.append(('wide_%06d_%dbits_u%d' % (e, w, k), case_from_raws(meta(edition=3 + k % 2), ids, subsets=[[v, 1]])))
+            out.append(('wide_%06d_%dbits_missing' % (e, w), case_from_raws(meta(), ids, subsets=[[(1 << w) - 1, 1]])))
+            # three subsets, uncompressed and compressed: a large minimum with small differences, one missing entry
+            base = max(v for v in vals if v <= top - 9)
+            col = [base, base + 9, (1 << w) - 1]
+            out.append(('wide_%06d_%dbits_3subsets' % (e, w),
+                        case_from_raws(meta(n_subsets=3), ids, subsets=[[c, 2] for c in col])))
+            out.append(('wide_%06d_%dbits_compressed' % (e, w),
+                        case_from_raws(meta(n_subsets=3, is_compressed=True), ids, columns=[col, [2, 2, 2]])))
+            out.append(('wide_%06d_%dbits_compressed_equal' % (e, w),
+                        case_from_raws(meta(n_subsets=2, is_compressed=True), ids, columns=[[base + 1, base + 1], [0, 1]])))
+    for name, c in out:
+        c.features.add('field_wider_than_53_bits')
+    return out
+
+
 def boundary_cases(tier='quick'):
     """[(name, Case)]: hand-laid-out messages at the numeric limits of the format's own fields -- replication counts of
     255 and beyond 8 / toward 16 bits, 63 replicated descriptors, bitmaps longer than 255 bits, subset counts beyond
